@@ -173,7 +173,7 @@ theorem segOk_single (f : String) (pol : Policy) (w : Bool) (op fn : String) (fw
     segOk f apps (single pol w op fn fw a) := by
   unfold single ask
   simp only
-  cases h : checkValidPath true (pol.verdict a) a with
+  cases h : checkValidPath true (pol.verdict w a) a with
   | none => simp [segOk, hop]
   | some P =>
     obtain ⟨h1, h2, h3, _⟩ := approved w _ _ _ h
@@ -212,7 +212,7 @@ theorem segOk_getDir (f : String) (pol : Policy) (ex : List CStr) (a : CStr) (ap
     (hop : opOk f "stat" = true) : segOk f apps (getDir pol ex a) := by
   unfold getDir ask
   simp only
-  cases h : checkValidPath true (pol.verdict a) a with
+  cases h : checkValidPath true (pol.verdict false a) a with
   | none => simp [segOk, hop]
   | some P =>
     obtain ⟨h1, h2, h3, _⟩ := approved false _ _ _ h
@@ -223,7 +223,7 @@ theorem segOk_stat (f : String) (pol : Policy) (ex : List CStr) (a : CStr) (apps
     (hop : opOk f "stat" = true) : segOk f apps (statEfun pol ex a) := by
   unfold statEfun ask
   simp only
-  cases h : checkValidPath true (pol.verdict a) a with
+  cases h : checkValidPath true (pol.verdict false a) a with
   | none => simp [segOk, hop]
   | some P =>
     obtain ⟨h1, h2, h3, _⟩ := approved false _ _ _ h
@@ -252,11 +252,11 @@ theorem segOk_rename (f : String) (pol : Policy) (ex : List CStr) (sym : Bool) (
     segOk f apps (renameEfun pol ex sym a b) := by
   unfold renameEfun ask
   simp only
-  cases h1 : checkValidPath true (pol.verdict a) a with
+  cases h1 : checkValidPath true (pol.verdict true a) a with
   | none => simp [segOk, hop1]
   | some from_ =>
     obtain ⟨a1, l1, s1, n1⟩ := approved true _ _ _ h1
-    cases h2 : checkValidPath true (pol.verdict b) b with
+    cases h2 : checkValidPath true (pol.verdict true b) b with
     | none => simp [segOk, hop1]
     | some to =>
       obtain ⟨a2, l2, s2, n2⟩ := approved true _ _ _ h2
@@ -283,10 +283,10 @@ theorem segOk_rename (f : String) (pol : Policy) (ex : List CStr) (sym : Bool) (
         have k2 : ∀ fn, apps'.any (okBy fn true (if c = true then to ++ '/' :: baseName from' else to)) = true :=
           fun fn => any_okBy _ _ _ _ ⟨true, to⟩ m2 l2 tc (by simp)
         cases sym <;> simp [segOk, k1, k2, hs', ts]
-      by_cases hr : (pol.verdict to).raises = true
+      by_cases hr : (pol.verdict false to).raises = true
       · simp [hr, segOk, a1, a2, hop1, hop2]
       simp only [hr, Bool.false_eq_true, ↓reduceIte]
-      cases h3 : checkValidPath true (pol.verdict to) to with
+      cases h3 : checkValidPath true (pol.verdict false to) to with
       | none =>
         simp only [List.append_assoc, List.singleton_append, List.nil_append, segOk, a1, a2, Option.toList_some,
           hop1, hop2, true_and, List.cons_append]
@@ -303,11 +303,11 @@ theorem segOk_cp (f : String) (pol : Policy) (ex : List CStr) (a b : CStr)
     segOk f apps (cpEfun pol ex a b) := by
   unfold cpEfun ask
   simp only
-  cases h1 : checkValidPath true (pol.verdict a) a with
+  cases h1 : checkValidPath true (pol.verdict false a) a with
   | none => simp [segOk, hop]
   | some from_ =>
     obtain ⟨a1, l1, s1, n1⟩ := approved false _ _ _ h1
-    cases h2 : checkValidPath true (pol.verdict b) b with
+    cases h2 : checkValidPath true (pol.verdict true b) b with
     | none => simp [segOk, hop]
     | some to =>
       obtain ⟨a2, l2, s2, n2⟩ := approved true _ _ _ h2
@@ -327,7 +327,7 @@ theorem segOk_save (f : String) (pol : Policy) (ex : List CStr) (a : CStr)
     segOk f apps (saveEfun pol ex a) := by
   unfold saveEfun ask
   simp only
-  cases h : checkValidPath true (pol.verdict (saveName a)) (saveName a) with
+  cases h : checkValidPath true (pol.verdict true (saveName a)) (saveName a) with
   | none => simp [segOk, hop]
   | some P =>
     obtain ⟨a1, l1, s1, _⟩ := approved true _ _ _ h
@@ -342,35 +342,50 @@ theorem segOk_save (f : String) (pol : Policy) (ex : List CStr) (a : CStr)
     · split <;> simp [segOk, st, s1, k1, k2]
     · trivial
 
-theorem segOk_edWrite (f : String) (pol : Policy) (b : CStr) (ld : Bool) (apps : List Approval)
-    (hop : opOk f "ed_start" = true) : segOk f apps (edWrite pol b ld) := by
-  unfold edWrite ask
-  simp only
-  split
-  · cases h2 : checkValidPath true (pol.verdict b) b with
-    | none => simp [segOk, hop]
-    | some Q =>
-      obtain ⟨a2, l2, s2, _⟩ := approved true _ _ _ h2
-      simp only [List.singleton_append, segOk, a2, Option.toList_some, hop, true_and]
-      cases ld with
-      | false => simp [segOk]
-      | true =>
-        simp only [↓reduceIte, segOk, s2, true_and, and_true]
-        exact any_okBy _ _ _ _ ⟨true, Q⟩ (by simp) l2 (covers_self Q) (by simp)
-  · trivial
+theorem edIo_false (r : Option CStr) (w : Bool) : edIo r false w = [] := by
+  cases r <;> rfl
 
-theorem segOk_ed (f : String) (pol : Policy) (ex : List CStr) (a b : CStr) (apps : List Approval)
-    (hop : opOk f "ed_start" = true) : segOk f apps (edEfun pol ex a b) := by
-  unfold edEfun ask
+/-- what every file command of the editor does: ONE consultation of the kind of the access, then at most the
+    `fopen` of exactly the approved path with that kind -/
+theorem segOk_askIo (f : String) (pol : Policy) (w io : Bool) (file : CStr) (apps : List Approval)
+    (hop : opOk f "ed_start" = true) :
+    segOk f apps ((ask pol w file "ed_start").1 ++ edIo (ask pol w file "ed_start").2 io w) := by
+  unfold ask edIo
   simp only
-  cases h1 : checkValidPath true (pol.verdict a) a with
-  | none =>
-    simp only [List.singleton_append, segOk, hop, true_and]
-    exact segOk_edWrite f pol b false _ hop
+  cases h : checkValidPath true (pol.verdict w file) file with
+  | none => simp [segOk, hop]
   | some P =>
-    obtain ⟨a1, l1, s1, _⟩ := approved false _ _ _ h1
-    simp only [List.singleton_append, segOk, a1, Option.toList_some, hop, true_and, s1]
-    exact ⟨any_okBy _ _ _ _ ⟨false, P⟩ (by simp) l1 (covers_self P) (by simp), segOk_edWrite f pol b _ _ hop⟩
+    obtain ⟨a1, l1, s1, _⟩ := approved w _ _ _ h
+    simp only [List.singleton_append, segOk, a1, Option.toList_some, hop, true_and]
+    cases io with
+    | false => simp [segOk]
+    | true =>
+      simp only [↓reduceIte, segOk, s1, true_and, and_true]
+      exact any_okBy _ _ _ _ ⟨w, P⟩ (by simp) l1 (covers_self P) (by cases w <;> simp)
+
+theorem segOk_edStep (f : String) (pol : Policy) (ex : List CStr) (st : EdSt) (c : EdCmd) (apps : List Approval)
+    (hop : opOk f "ed_start" = true) : segOk f apps (edStep pol ex st c).1 := by
+  cases c with
+  | start file => exact segOk_askIo f pol false true file apps hop
+  | a t => simp [edStep, segOk]
+  | e arg =>
+    simp only [edStep]
+    split
+    · simp [segOk]
+    · exact segOk_askIo f pol false true _ apps hop
+  | E arg => exact segOk_askIo f pol false true _ apps hop
+  | f arg =>
+    have := segOk_askIo f pol false false (if (if arg = [] then '/' :: st.fname else arg).head? = some '/'
+      then (if arg = [] then '/' :: st.fname else arg) else str "/d/" ++ (if arg = [] then '/' :: st.fname else arg))
+      apps hop
+    rw [edIo_false, List.append_nil] at this
+    exact this
+  | r arg => exact segOk_askIo f pol false true _ apps hop
+  | w arg => exact segOk_askIo f pol true _ _ apps hop
+  | W arg => exact segOk_askIo f pol true _ _ apps hop
+  | x => exact segOk_askIo f pol true true _ apps hop
+  | q => simp [edStep, segOk]
+  | Q => simp [edStep, segOk]
 
 /-- the file efuns of the system-style model (= the keys of the oracle's operation-name table) -/
 def efunNames : List String :=
@@ -407,7 +422,7 @@ theorem efun_segOk (pol : Policy) (ex : List CStr) (efun : String) (a b : CStr) 
   · exact segOk_rename _ _ _ _ _ _ _ (by decide) (by decide)
   · exact segOk_cp _ _ _ _ _ _ (by decide)
   · exact segOk_save _ _ _ _ _ (by decide)
-  · exact segOk_ed _ _ _ _ _ _ (by decide)
+  · exact segOk_edStep _ _ _ _ _ _ (by decide)
 
 /-- **model_satisfies_spec**: for every file efun, every argument string(s), every master policy and every
     file-system content, the oracle finds nothing to object to in the model's trace. -/
@@ -421,17 +436,17 @@ theorem model_satisfies_spec (pol : Policy) (ex : List CStr) (efun : String) (ar
 /-! ### a master without valid_read / valid_write -/
 
 theorem fold_absent (f : String) : ∀ (evs : List Ev) (apps : List Approval) (s : JState),
-    s.bad = [] → s.absent = true → segOk f apps evs →
-    ((evs.filter (fun e => !e.isValid)).foldl judgeStep s).bad = [] := by
+    s.absent = true → segOk f apps evs →
+    (evs.filter (fun e => !e.isValid)).foldl judgeStep s = s := by
   intro evs
   induction evs with
-  | nil => intro _ s h _ _; simpa using h
+  | nil => intro _ s _ _; rfl
   | cons e rest ih =>
-    intro apps s hb ha hs
+    intro apps s ha hs
     cases e with
     | valid w path who op v =>
       obtain ⟨_, _, h3⟩ := hs
-      simpa [Ev.isValid] using ih _ s hb ha h3
+      simpa [Ev.isValid] using ih _ s ha h3
     | fs fn w p =>
       obtain ⟨h1, _, h3⟩ := hs
       have hna : absolute p = false := by
@@ -439,10 +454,10 @@ theorem fold_absent (f : String) : ∀ (evs : List Ev) (apps : List Approval) (s
       have hstep : judgeStep s (.fs fn w p) = s := by
         simp [judgeStep, hna, h1, ha]
       simp only [Ev.isValid, Bool.not_false, List.filter_cons_of_pos, List.foldl_cons, hstep]
-      exact ih apps s hb ha h3
+      exact ih apps s ha h3
     | note n =>
       simp only [Ev.isValid, Bool.not_false, List.filter_cons_of_pos, List.foldl_cons]
-      exact ih apps s hb ha hs
+      exact ih apps s ha hs
     | lp _ _ => exact absurd hs (by simp [segOk])
     | cvp _ _ _ => exact absurd hs (by simp [segOk])
     | sn _ _ => exact absurd hs (by simp [segOk])
@@ -458,7 +473,7 @@ theorem model_satisfies_spec_absent (pol : Policy) (ex : List CStr) (efun : Stri
     judgeEv (.mode true :: .call efun whoObj args :: sysEvents true pol ex efun a b) = [] := by
   unfold judgeEv sysEvents
   simp only [↓reduceIte, List.foldl_cons]
-  have := fold_absent efun _ [] (judgeStep (judgeStep {} (.mode true)) (.call efun whoObj args)) rfl rfl
+  have := fold_absent efun _ [] (judgeStep (judgeStep {} (.mode true)) (.call efun whoObj args)) rfl
     (efun_segOk .allow ex efun a b h)
   rw [this]; rfl
 
@@ -467,6 +482,69 @@ theorem model_satisfies_spec_present (pol : Policy) (ex : List CStr) (efun : Str
     (h : efun ∈ efunNames) :
     judgeEv (.call efun whoObj args :: sysEvents false pol ex efun a b) = [] := by
   simpa [sysEvents] using model_satisfies_spec pol ex efun args a b h
+
+/-! ### editing sessions -/
+
+theorem fold_session (pol : Policy) (ex : List CStr) : ∀ (cmds : List EdCmd) (st : EdSt) (s : JState),
+    s.bad = [] → ((edSession pol ex st cmds).foldl judgeStep s).bad = [] := by
+  intro cmds
+  induction cmds with
+  | nil => intro _ s h; simpa [edSession] using h
+  | cons c cs ih =>
+    intro st s hb
+    unfold edSession
+    by_cases hr : edRuns st c = true
+    · simp only [hr, ↓reduceIte]
+      rw [List.cons_append, List.foldl_cons, List.foldl_append]
+      apply ih
+      exact fold_ok "ed" (by decide) _ (judgeStep s (.call "ed" whoObj c.callArgs)) (by simpa [judgeStep] using hb)
+        rfl rfl (segOk_edStep "ed" pol ex st c [] (by decide))
+    · simp only [hr, Bool.false_eq_true, ↓reduceIte]; exact ih st s hb
+
+/-- **model_satisfies_spec for editing sessions**: for every sequence of editor commands (ed (file), text input,
+    e / E / f / r / w / W with or without a file name, x, q, Q), every file name and every master policy — in
+    particular masters that approve reads and deny writes — every `fopen` of the session is preceded, within the
+    same command, by a consultation of the right kind (valid_write for w / W / x, valid_read for the others) that
+    approved exactly that path. -/
+theorem ed_session_satisfies_spec (pol : Policy) (ex : List CStr) (st : EdSt) (cmds : List EdCmd) :
+    judgeEv (edSession pol ex st cmds) = [] := by
+  unfold judgeEv
+  rw [fold_session pol ex cmds st {} rfl]; rfl
+
+theorem fold_session_absent (ex : List CStr) : ∀ (cmds : List EdCmd) (st : EdSt) (s : JState),
+    s.bad = [] → s.absent = true →
+    (((edSession .allow ex st cmds).filter (fun e => !e.isValid)).foldl judgeStep s).bad = [] := by
+  intro cmds
+  induction cmds with
+  | nil => intro _ s h _; simpa [edSession] using h
+  | cons c cs ih =>
+    intro st s hb ha
+    unfold edSession
+    by_cases hr : edRuns st c = true
+    · simp only [hr, ↓reduceIte]
+      rw [List.cons_append, List.filter_cons_of_pos (by rfl), List.filter_append, List.foldl_cons, List.foldl_append]
+      rw [fold_absent "ed" _ [] _ (by simpa [judgeStep] using ha) (segOk_edStep "ed" .allow ex st c [] (by decide))]
+      exact ih _ _ (by simpa [judgeStep] using hb) (by simpa [judgeStep] using ha)
+    · simp only [hr, Bool.false_eq_true, ↓reduceIte]; exact ih st s hb ha
+
+theorem ed_session_satisfies_spec_absent (pol : Policy) (ex : List CStr) (cmds : List EdCmd) :
+    judgeEv (.mode true :: sysSession true pol ex cmds) = [] := by
+  unfold judgeEv sysSession
+  simp only [↓reduceIte, List.foldl_cons]
+  rw [fold_session_absent ex cmds {} _ rfl rfl]; rfl
+
+/-- non-vacuity: a session that writes, and the oracle's objection to a write nobody approved as a write -/
+example : edSession .readOnly [] {} [.start (str "/d/f.txt"), .a (str "x"), .w [], .Q] =
+    [.call "ed" whoObj [str "ed", str "/d/f.txt"], .valid false (str "/d/f.txt") whoObj "ed_start" .ok,
+     .fs "fopen" false (str "d/f.txt"),
+     .call "ed" whoObj [str "a", str "x"],
+     .call "ed" whoObj [str "w", []], .valid true (str "/d/f.txt") whoObj "ed_start" .deny,
+     .call "ed" whoObj [str "Q", []]] := by decide
+example : judgeEv [.call "ed" whoObj [str "ed", str "/d/f.txt"], .valid false (str "/d/f.txt") whoObj "ed_start" .ok,
+     .fs "fopen" false (str "d/f.txt"), .call "ed" whoObj [str "w", []], .fs "fopen" true (str "d/f.txt")] ≠ [] := by
+  decide
+example : judgeEv [.call "ed" whoObj [str "w", []], .valid false (str "/d/f.txt") whoObj "ed_start" .ok,
+     .fs "fopen" true (str "d/f.txt")] ≠ [] := by decide
 
 /-- non-vacuity: a trace with real events, and the oracle does object to an unmediated touch -/
 example : (efunEvents .allow [] "rename" (str "/d/f.txt") (str "/d/sub")).length = 6 := by decide
